@@ -8,7 +8,8 @@ D = os.path.join(SPECS, "lef")
 
 def generate(chk):
     cfg = os.path.join(chk.workdir, "lefgen.cfg")
-    open(cfg, "w").write("SPECIFICATION Spec\nINVARIANTS Balanced Emit\nCHECK_DEADLOCK FALSE\n")
+    ncompose = 6000 if chk.tier == "thorough" else 60
+    open(cfg, "w").write(f"SPECIFICATION Spec\nCONSTANT NCompose = {ncompose}\nINVARIANTS Balanced Emit\nCHECK_DEADLOCK FALSE\n")
     r = chk.tlc.check(os.path.join(D, "MC_LefGen.tla"), cfg, timeout=3600)
     chk.add_tlc("MC_LefGen per-construct LEF libraries rendered by LefSyntax", r)
     chk.tlc_must_pass("MC_LefGen", r)
